@@ -35,14 +35,14 @@ Proof. intros. unfold step. cbn [c_pool]. apply setp_other. assumption. Qed.
 Lemma step_store : forall i (c : config), c_store (step i c) = snd (step1 (c_pool c i) (c_store c)).
 Proof. reflexivity. Qed.
 
-Lemma run_app : forall s1 s2 (c : config), run (s1 ++ s2) c = run s2 (run s1 c).
-Proof. intros. unfold run. apply fold_left_app. Qed.
+Lemma run_app : forall s1 s2 (c : config), exec (s1 ++ s2) c = exec s2 (exec s1 c).
+Proof. intros. unfold exec. apply fold_left_app. Qed.
 
-Lemma run_cons : forall i s (c : config), run (i :: s) c = run s (step i c).
+Lemma run_cons : forall i s (c : config), exec (i :: s) c = exec s (step i c).
 Proof. reflexivity. Qed.
 
 (* a finished thread stays finished *)
-Lemma ret_stays : forall sched (c : config) i r, c_pool c i = Ret r -> c_pool (run sched c) i = Ret r.
+Lemma ret_stays : forall sched (c : config) i r, c_pool c i = Ret r -> c_pool (exec sched c) i = Ret r.
 Proof.
   induction sched as [|j sched IH]; intros c i r H; [exact H|].
   rewrite run_cons. apply IH.
@@ -54,7 +54,7 @@ Qed.
 (* every schedule that gives thread i enough turns finishes it *)
 Lemma bounded_finishes : forall sched (c : config) i n,
   bounded (c_pool c i) n -> n <= count_occ Nat.eq_dec sched i ->
-  exists r, result (run sched c) i = Some r.
+  exists r, result (exec sched c) i = Some r.
 Proof.
   induction sched as [|j sched IH]; intros c i n B H.
   - cbn in H. assert (n = 0) as Hn by lia. subst n. inversion B as [r n0 Hp Hn| |].
@@ -201,7 +201,7 @@ Proof.
       rewrite Ne. cbn. apply Hu.
 Qed.
 
-Lemma inv_run : forall sched c, inv c -> inv (run sched c).
+Lemma inv_run : forall sched c, inv c -> inv (exec sched c).
 Proof. induction sched as [|i sched IH]; intros c H; [exact H|]. rewrite run_cons. apply IH, inv_step, H. Qed.
 
 Lemma kinds_ok : forall veqb, (forall a : V, veqb a a = true) ->
@@ -217,7 +217,7 @@ Qed.
    memo entries the threads wrote. *)
 Theorem memo_confluence : forall (veqb : V -> V -> bool), (forall a, veqb a a = true) ->
   forall sched,
-  let c := run sched (init ps s0) in
+  let c := exec sched (init ps s0) in
   (forall i r, result c i = Some r -> r = fst (solo (ps i) s0)) /\
   Forall (fun k => k <> KDestructiveWrite) (kinds veqb sched (init ps s0)) /\
   (forall k, c_store c k = union_store memo s0 (c_log c) k) /\
@@ -305,14 +305,14 @@ Proof.
     destruct Hj as [r|k0 f Hv Hf|k0 v p Ho Hp]; cbn; try exact Hl. constructor; [exact Ho|exact Hl].
 Qed.
 
-Lemma oinv_run : forall sched c, oinv c -> oinv (run sched c).
+Lemma oinv_run : forall sched c, oinv c -> oinv (exec sched c).
 Proof. induction sched as [|i sched IH]; intros c H; [exact H|]. rewrite run_cons. apply IH, oinv_step, H. Qed.
 
 (* THE THEOREM: threads that write only keys they own and read only shared or own keys perform no
    shared write, and under every schedule each finished thread has its solo result and has left in
    its own keys exactly what it leaves there when run alone. *)
 Theorem part_writer : forall sched,
-  let c := run sched (init ps s0) in
+  let c := exec sched (init ps s0) in
   (forall k, own k = None -> c_store c k = s0 k) /\
   Forall (fun e => own (snd e) = Some (fst e)) (c_log c) /\
   (forall i r, result c i = Some r ->
@@ -478,7 +478,7 @@ Definition rebuild_pool (ws : wlog) (name : N) : pool (list N) N :=
 Lemma rebuild_refuted_3 :
   exists ws, tree_writes (flat_schema 3) = Some ws /\
   exists sched,
-    result (run sched (init (rebuild_pool ws 2%N) (built ws))) 1 = Some 1%N /\
+    result (exec sched (init (rebuild_pool ws 2%N) (built ws))) 1 = Some 1%N /\
     fst (solo (rebuild_pool ws 2%N 1) (built ws)) = 0%N /\
     In KDestructiveWrite (kinds list_eqb sched (init (rebuild_pool ws 2%N) (built ws))).
 Proof.
